@@ -285,3 +285,10 @@ Theorem report_data_binds_rek_and_node_id_refuted :
     cap_verify NP env cfg ts h sc nid2 true (mkCap 1 rak rek2 (Some (mkAtt 1 q 990 s2))) = NOk tt.
 Proof. exact report_data_binds_rek_and_node_id_refuted_l. Qed.
 Print Assumptions report_data_binds_rek_and_node_id_refuted.
+
+(* TDX module policy: an allowed entry must match on every field it sets *)
+Theorem tdx_module_policy_is_conjunction :
+  forall (mods : list TdxModulePolicy) (body : bytes),
+    tdx_module_allowed mods body = true <-> tdx_policy_admits mods body.
+Proof. exact tdx_module_allowed_spec. Qed.
+Print Assumptions tdx_module_policy_is_conjunction.
